@@ -364,11 +364,45 @@ end_case:
 	vbuf_free(&c.src); vbuf_free(&outacc); vbuf_free(&expect_plain);
 }
 
+// The amount of pending input the wrapper remembers across the calls of a flush/finish sequence is a size_t: with
+// more than 4 GiB pending (a read-only MAP_NORESERVE mapping of zero pages - it costs no memory, and only the first
+// few hundred KiB are ever read) a continuation with unchanged input must be accepted, and a change of avail_in by
+// exactly 2^32 must be noticed.
+#include <sys/mman.h>
+static void big_avail_case(uint64_t idx)
+{
+	hx_case_begin(idx);
+	const size_t SZ = ((size_t)4 << 30) + ((size_t)256 << 20);
+	uint8_t *big = mmap(NULL, SZ, PROT_READ, MAP_PRIVATE | MAP_ANONYMOUS | MAP_NORESERVE, -1, 0);
+	if (big == MAP_FAILED) { hx_note("big_avail_case: mmap of %zu bytes failed, case skipped", SZ); return; }
+	static const lzma_action acts[] = { LZMA_FINISH, LZMA_SYNC_FLUSH, LZMA_FULL_FLUSH };
+	for (unsigned k = 0; k < 6; ++k) {
+		lzma_action act = acts[k % 3]; bool drop = k >= 3;
+		lzma_stream s = LZMA_STREAM_INIT;
+		if (lzma_easy_encoder(&s, 0, LZMA_CHECK_CRC32) != LZMA_OK) { lzma_end(&s); continue; }
+		uint8_t ob[4]; lzma_ret ret = LZMA_OK;
+		s.next_in = big; s.avail_in = SZ;
+		for (int call = 0; call < 5 && ret == LZMA_OK; ++call) { s.next_out = ob; s.avail_out = 1; ret = lzma_code(&s, act); hx_eval(); }
+		if (ret != LZMA_OK) {
+			hx_violation("C11", "legal-continuation-refused|avail_in-over-4GiB", idx, "action %d with %zu bytes pending: a continuation with unchanged input returned %s", (int)act, SZ, lzma_ret_name(ret));
+		} else if (drop && s.avail_in > ((size_t)1 << 32)) {
+			s.avail_in -= (size_t)1 << 32;
+			s.next_out = ob; s.avail_out = 1;
+			ret = lzma_code(&s, act); hx_eval();
+			if (ret != LZMA_PROG_ERROR)
+				hx_violation("C11", "illegal-call-accepted|avail_in-changed-mid-flush|by-2^32", idx, "action %d: avail_in reduced by exactly 2^32 in the middle of the sequence, lzma_code returned %s instead of LZMA_PROG_ERROR", (int)act, lzma_ret_name(ret));
+		}
+		lzma_end(&s);
+		hx_count("big_avail_in_sequences", 1);
+	}
+	munmap(big, SZ);
+}
+
 int main(int argc, char **argv)
 {
 	hx_parse(argc, argv, &A);
 	uint64_t idx = UINT64_MAX;
-	while (hx_next_case(&A, &idx)) run_case(idx);
+	while (hx_next_case(&A, &idx)) { if (idx == 5 && sizeof(size_t) > 4) big_avail_case(idx); else run_case(idx); }
 	hx_finish();
 	return 0;
 }
